@@ -1,6 +1,6 @@
 CONSTANT Configs <- CfgsStopBig
-SPECIFICATION FairSpec
+INIT Init
+NEXT Next
 VIEW View
 INVARIANTS TypeOK OrderInv CompleteInv OffsetInv ReadAheadInv ErrPrecedenceInv
-PROPERTIES CloseReturns AllExit ScanEnds LaterScansFalse
 CHECK_DEADLOCK FALSE
